@@ -76,6 +76,7 @@ class Run(object):
     self.t0 = time.time()
     self.funcs_analysed = set()
     self._seen_keys = set()
+    self.errors = []      # (rule function name, message): rules that could not decide
 
   # ---------------------------------------------------------------- recording
   def rule(self, rule_id, desc, floor=None):
@@ -98,6 +99,14 @@ class Run(object):
     self.obs.append(o)
     self.rules[rule]["instances"] += 1
     return bool(ok)
+
+  def guard(self, func, *args, **kw):
+    """Run one rule function; if it cannot decide, record that and let the other rules run."""
+    try:
+      return func(*args, **kw)
+    except AnalysisError as e:
+      self.errors.append((getattr(func, "__name__", "?"), str(e)))
+      return None
 
   def analysed(self, fi):
     self.funcs_analysed.add(fi.qualname)
